@@ -7,6 +7,7 @@
 //	2 p    Notify with payload id p
 //	3 k    k=2 Reply, 3 result (success/error alternating on p), 4 Write
 //	4 c    DatagramForMsgCounter(c)
+//	5 k..  overlapping calls of kinds k.. (as for op 3), one goroutine each, released together
 //
 // obs encoding (print_obs): 0 c k p = datagram written; 1 c = returned counter; 2 p = found; 3 = not found.
 package main
@@ -14,7 +15,9 @@ package main
 import (
 	"encoding/json"
 	"fmt"
+	"sort"
 	"sync"
+	"sync/atomic"
 
 	"github.com/enbility/spine-go/api"
 	"github.com/enbility/spine-go/model"
@@ -92,7 +95,7 @@ func cmdID(c model.CmdType) int64 {
 type impl struct {
 	w *writer
 	s api.SenderInterface
-	n int
+	n int64
 }
 
 func newImpl() hx.Impl {
@@ -157,6 +160,22 @@ func notifyCmd(p int64) model.CmdType {
 	return model.CmdType{DeviceDiagnosisHeartbeatData: &model.DeviceDiagnosisHeartbeatDataType{HeartbeatCounter: util.Ptr(uint64(p))}}
 }
 
+func (m *impl) other(k int64) {
+	req := &model.HeaderType{AddressSource: featAddr(1), AddressDestination: localAddr, MsgCounter: util.Ptr(model.MsgCounterType(7))}
+	switch k {
+	case 2:
+		m.s.Reply(req, localAddr, readCmd(0))
+	case 3:
+		if atomic.AddInt64(&m.n, 1)%2 == 0 {
+			m.s.ResultSuccess(req, localAddr)
+		} else {
+			m.s.ResultError(req, localAddr, model.NewErrorTypeFromString("x"))
+		}
+	default:
+		m.s.Write(localAddr, featAddr(1), readCmd(1))
+	}
+}
+
 func (m *impl) Exec(op hx.Zs) []hx.Zs {
 	var ret []hx.Zs
 	switch op[0] {
@@ -191,20 +210,47 @@ func (m *impl) Exec(op hx.Zs) []hx.Zs {
 			ret = append(ret, hx.Zs{1, int64(*ctr)})
 		}
 	case 3:
-		req := &model.HeaderType{AddressSource: featAddr(1), AddressDestination: localAddr, MsgCounter: util.Ptr(model.MsgCounterType(7))}
-		switch op[1] {
-		case 2:
-			m.s.Reply(req, localAddr, readCmd(0))
-		case 3:
-			m.n++
-			if m.n%2 == 0 {
-				m.s.ResultSuccess(req, localAddr)
-			} else {
-				m.s.ResultError(req, localAddr, model.NewErrorTypeFromString("x"))
-			}
-		default:
-			m.s.Write(localAddr, featAddr(1), readCmd(1))
+		m.other(op[1])
+	case 5:
+		// overlapping calls: one goroutine per kind, released together; the written datagrams are
+		// sorted by counter and paired with the kinds in the order given when the multiset of kinds
+		// is the expected one (which goroutine obtained which counter is the schedule's business)
+		kinds := op[1:]
+		start := make(chan struct{})
+		var wg sync.WaitGroup
+		for _, k := range kinds {
+			wg.Add(1)
+			go func(k int64) {
+				defer wg.Done()
+				<-start
+				m.other(k)
+			}(k)
 		}
+		close(start)
+		wg.Wait()
+		ws := m.written()
+		sort.SliceStable(ws, func(i, j int) bool { return len(ws[i]) > 1 && len(ws[j]) > 1 && ws[i][1] < ws[j][1] })
+		want := map[int64]int{}
+		for _, k := range kinds {
+			want[k]++
+		}
+		same := len(ws) == len(kinds)
+		for _, w := range ws {
+			if len(w) == 4 {
+				want[w[2]]--
+			}
+		}
+		for _, v := range want {
+			if v != 0 {
+				same = false
+			}
+		}
+		if same {
+			for i := range ws {
+				ws[i][2] = kinds[i]
+			}
+		}
+		return ws
 	case 4:
 		d, err := m.s.DatagramForMsgCounter(model.MsgCounterType(op[1]))
 		if err != nil {
@@ -290,7 +336,36 @@ func gen(r *hx.Rng, tier string, i int) []hx.Zs {
 		take()
 		h = append(h, hx.Zs{3, []int64{2, 3, 4}[r.Intn(3)]})
 	}
+	burst := func() {
+		n := r.Range(2, 16)
+		op := hx.Zs{5}
+		for j := 0; j < n; j++ {
+			take()
+			op = append(op, []int64{2, 3, 4}[r.Intn(3)])
+		}
+		h = append(h, op)
+	}
 	nDst := int64(4)
+	if i%5 == 4 { // concurrent use: bursts of overlapping calls between sequential operations
+		n := r.Range(6, 40)
+		for len(h) < n {
+			switch r.Pick(50, 15, 10, 10, 10, 5) {
+			case 0:
+				burst()
+			case 1:
+				request(int64(r.Intn(int(nDst)))*nCmd + int64(r.Intn(nCmd)))
+			case 2:
+				notify()
+			case 3:
+				other()
+			case 4:
+				response()
+			default:
+				lookup()
+			}
+		}
+		return h
+	}
 	switch kind := i % 4; kind {
 	case 0: // mixed
 		n := r.Range(8, 70)
@@ -373,7 +448,7 @@ func main() {
 		Property: "C13",
 		Clauses: map[int64]string{1: "counter-duplicated", 2: "counter-not-increasing", 3: "withheld-without-unanswered-identical-request",
 			4: "wrong-datagram-or-return", 5: "lru-get-refreshes-recency", 6: "retrieved-wrong-datagram", 98: "unparseable-observation", 99: "unparseable-operation"},
-		OpNames: map[int64]string{0: "request", 1: "response", 2: "notify", 3: "reply/result/write", 4: "lookup"},
+		OpNames: map[int64]string{0: "request", 1: "response", 2: "notify", 3: "reply/result/write", 4: "lookup", 5: "burst (overlapping calls)"},
 		NewImpl: newImpl,
 		Gen:     gen,
 		Count:   map[string]int{"quick": 400, "thorough": 20000},
